@@ -82,6 +82,16 @@ def main():
                     "translator: check_event regenerated from storage/base.py no longer matches as the model's liveMatch (%s fail)"
                     % ", ".join(tl["failed_names"]), {"kind": "translation", "failed": tl["failed"]}, tl["definitions"],
                     "NostrRelay/Model/Live.lean liveMatch")
+        if prop == "C14":
+            from lib import translate_validators
+            tc = translate_validators.run_can_do(common.REPO, common.LEAN)
+            report.coverage["translation_tie"] = {
+                "source": "nostr_relay/auth.py Authenticator.can_do", "status": tc["status"], "theorems": tc["theorems"],
+                "failed": tc["failed"], "unavailable": tc["unavailable"], "definitions": tc["definitions"]}
+            if tc["failed_names"]:
+                report.correspondence_break("translator: can_do regenerated from auth.py no longer decides as the model's canDo",
+                                            {"kind": "translation", "failed": tc["failed"]}, tc["definitions"],
+                                            "NostrRelay/Model/Admission.lean canDo")
         if prop == "C15":
             from lib import translate_validators
             ta = translate_validators.run_auth(common.REPO, common.LEAN)
